@@ -1,3 +1,274 @@
 import PysphVerif.Driver.Common
-/-! Line-protocol driver for C03 (stub: not built yet). -/
-def main : IO Unit := PysphVerif.Driver.loopPure (fun _ => "bad-op")
+import PysphVerif.Model.Schedule
+/-!
+Line protocol for C03 (stateful: a case is declared line by line, then run).
+
+```
+new arrays=<A> epochs=<E> fuel=<F> flat=<0|1>
+top kind=leaf|parent real=<0|1> start=n<k>|k<name> stop=-|n<k>|k<name> iter=<0|1> min=<n> max=<n> cond=<0|1> pre=<0|1> post=<0|1> nnps=<0|1>
+sub <same attributes>                 -- appended to the last `top kind=parent`
+eq id=<n> dest=<a> src=_|a,b hooks=_|pi,in,ip,la,lp,pl,rd   -- appended to the last leaf / sub
+cond g=<gi>|<gi>.<k> v=<0|1 list> rest=<0|1>   -- outcome of the n-th call of that group's condition
+conv e=<id> v=<0|1 list> rest=<0|1>            -- outcome of the n-th call of that equation's converged
+size ep=<epoch> a=<arr> real=<n> all=<n>       -- epoch = number of NNPS refreshes so far
+named a=<arr> k=<name> v=<n>
+nb ep=<epoch> d=<dst> s=<src> i=<idx> l=<list>
+run impl|spec                                  -- answers the trace
+```
+Every line but `run` answers `ok`; anything malformed or any table entry the run would need
+but that was not supplied answers `bad-op …`.
+Events: `pre:g post:g nnps:g cond:g:b pi:e:d in:e:d:i ln:e:d:i ip:e:d:s:i la:e:d:s:i:<nbrs joined by +|_>
+lp:e:d:s:i:j pl:e:d:i rd:e:d cv:e:b div:g`, blank separated.
+-/
+namespace PysphVerif.Driver.C03
+open PysphVerif.Wire PysphVerif.Schedule
+
+structure BTop where
+  a : Attrs
+  parent : Bool
+  eqs : List Equation := []
+  subs : List Leaf := []
+
+structure St where
+  arrays : Nat := 0
+  epochs : Nat := 0
+  fuel : Nat := 0
+  flat : Bool := false
+  tops : List BTop := []
+  cond : List (GId × List Bool × Bool) := []
+  conv : List (Nat × List Bool × Bool) := []
+  size : List ((Nat × Nat) × (Nat × Nat)) := []
+  named : List ((Nat × Nat) × Nat) := []
+  nb : List ((Nat × Nat × Nat × Nat) × List Nat) := []
+
+def parseBool? (s : String) : Option Bool :=
+  if s = "1" then some true else if s = "0" then some false else none
+
+def parseIdx? (s : String) : Option Idx :=
+  match s.toList with
+  | 'n' :: r => (parseNat? (String.ofList r)).map Idx.num
+  | 'k' :: r => (parseNat? (String.ofList r)).map Idx.named
+  | _ => none
+
+def parseHook? (s : String) : Option Hook :=
+  match s with
+  | "pi" => some .pyInit | "in" => some .init | "ip" => some .initPair | "la" => some .loopAll
+  | "lp" => some .loop | "pl" => some .postLoop | "rd" => some .reduce | _ => none
+
+def parseAttrs (kv : List (String × String)) : Option Attrs := do
+  let real ← lookup kv "real" >>= parseBool?
+  let start ← lookup kv "start" >>= parseIdx?
+  let stopS ← lookup kv "stop"
+  let stop ← if stopS = "-" then some none else (parseIdx? stopS).map some
+  let iter ← lookup kv "iter" >>= parseBool?
+  let mn ← lookup kv "min" >>= parseNat?
+  let mx ← lookup kv "max" >>= parseNat?
+  let c ← lookup kv "cond" >>= parseBool?
+  let pre ← lookup kv "pre" >>= parseBool?
+  let post ← lookup kv "post" >>= parseBool?
+  let nn ← lookup kv "nnps" >>= parseBool?
+  pure { real := real, start := start, stop := stop, iterate := iter, maxIter := mx, minIter := mn,
+         hasCond := c, hasPre := pre, hasPost := post, updateNnps := nn }
+
+def parseGId? (s : String) : Option GId :=
+  match s.splitOn "." with
+  | [g] => (parseNat? g).map (fun n => ⟨n, none⟩)
+  | [g, k] => do
+    let n ← parseNat? g
+    let m ← parseNat? k
+    pure ⟨n, some m⟩
+  | _ => none
+
+/-- modify the last element of a list -/
+def modifyLast {α} (f : α → Option α) : List α → Option (List α)
+  | [] => none
+  | [a] => (f a).map (fun b => [b])
+  | a :: l => (modifyLast f l).map (a :: ·)
+
+def addEq (e : Equation) (t : BTop) : Option BTop :=
+  if t.parent then
+    (modifyLast (fun (l : Leaf) => some { l with eqs := l.eqs ++ [e] }) t.subs).map
+      (fun s => { t with subs := s })
+  else some { t with eqs := t.eqs ++ [e] }
+
+def script (v : List Bool) (rest : Bool) (n : Nat) : Bool :=
+  match v[n]? with
+  | some b => b
+  | none => rest
+
+def isNnps : Event → Bool
+  | .nnps _ => true
+  | _ => false
+def isCondOf (g : GId) : Event → Bool
+  | .cond g' _ => g' = g
+  | _ => false
+def isConvOf (e : Nat) : Event → Bool
+  | .conv e' _ => e' = e
+  | _ => false
+
+def epochOf (h : Hist) : Nat := h.countP isNnps
+
+/-- sentinel neighbour, visible in any trace that consulted a missing entry -/
+def missing : Nat := 4000000000
+
+def mkOracle (s : St) : Oracle where
+  cond h g :=
+    match s.cond.find? (·.1 = g) with
+    | some (_, v, r) => script v r (h.countP (isCondOf g))
+    | none => false
+  conv h e :=
+    match s.conv.find? (·.1 = e) with
+    | some (_, v, r) => script v r (h.countP (isConvOf e))
+    | none => true
+  size h a real :=
+    match s.size.find? (·.1 = (epochOf h, a)) with
+    | some (_, (nr, na)) => if real then nr else na
+    | none => 0
+  named _ a k :=
+    match s.named.find? (·.1 = (a, k)) with
+    | some (_, v) => v
+    | none => 0
+  nbrs h d sr i :=
+    match s.nb.find? (·.1 = (epochOf h, d, sr, i)) with
+    | some (_, l) => l
+    | none => [missing]
+
+def program (s : St) : Option Program :=
+  let tops := s.tops.map (fun t => if t.parent then Top.parent t.a t.subs else Top.leaf ⟨t.a, t.eqs⟩)
+  if s.flat then
+    match tops with
+    | [Top.leaf l] => if l.attrs = {} then some (.flat l.eqs) else none
+    | _ => none
+  else some (.groups tops)
+
+def showGId (g : GId) : String :=
+  match g.sub with
+  | none => toString g.top
+  | some k => s!"{g.top}.{k}"
+
+def b01 (b : Bool) : String := if b then "1" else "0"
+
+def showEvent : Event → String
+  | .pre g => s!"pre:{showGId g}"
+  | .post g => s!"post:{showGId g}"
+  | .cond g b => s!"cond:{showGId g}:{b01 b}"
+  | .nnps g => s!"nnps:{showGId g}"
+  | .pyInit e d => s!"pi:{e}:{d}"
+  | .init e d i => s!"in:{e}:{d}:{i}"
+  | .loopNoSrc e d i => s!"ln:{e}:{d}:{i}"
+  | .initPair e d s i => s!"ip:{e}:{d}:{s}:{i}"
+  | .loopAll e d s i nb =>
+    s!"la:{e}:{d}:{s}:{i}:" ++ (if nb.isEmpty then "_" else "+".intercalate (nb.map toString))
+  | .loop e d s i j => s!"lp:{e}:{d}:{s}:{i}:{j}"
+  | .postLoop e d i => s!"pl:{e}:{d}:{i}"
+  | .reduce e d => s!"rd:{e}:{d}"
+  | .conv e b => s!"cv:{e}:{b01 b}"
+  | .diverged g => s!"div:{showGId g}"
+
+def allEqs : Program → List Equation
+  | .flat eqs => eqs
+  | .groups gs => gs.flatMap (fun (t : Top) => match t with
+      | .leaf l => l.eqs
+      | .parent _ subs => subs.flatMap (·.eqs))
+
+def allAttrs : Program → List Attrs
+  | .flat _ => []
+  | .groups gs => gs.flatMap (fun (t : Top) => match t with
+      | .leaf l => [l.attrs]
+      | .parent a subs => a :: subs.map (·.attrs))
+
+def namesOf (a : Attrs) : List Nat :=
+  (match a.start with | .named k => [k] | _ => []) ++
+  (match a.stop with | some (.named k) => [k] | _ => [])
+
+/-- every table entry a run can consult must have been supplied -/
+def complete (s : St) (P : Program) : Bool :=
+  let arrs := List.range s.arrays
+  (List.range (s.epochs + 1)).all (fun ep => arrs.all (fun a =>
+    (s.size.find? (·.1 = (ep, a))).isSome)) &&
+  ((allAttrs P).flatMap namesOf).all (fun k => arrs.all (fun a =>
+    (s.named.find? (·.1 = (a, k))).isSome)) &&
+  (allEqs P).all (fun e => e.dest < s.arrays && e.sources.all (· < s.arrays))
+
+def run (s : St) (which : String) : String :=
+  match program s with
+  | none => "bad-op program"
+  | some P =>
+    if !complete s P then "bad-op incomplete-tables" else
+    let O := mkOracle s
+    let tr := if which = "impl" then some (implTrace O s.fuel P)
+              else if which = "spec" then some (specTrace O P) else none
+    match tr with
+    | none => "bad-op"
+    | some tr =>
+      if tr.countP isNnps > s.epochs then "bad-op epochs"
+      else if tr.isEmpty then "_" else " ".intercalate (tr.map showEvent)
+
+def step (s : St) (line : String) : St × String :=
+  match tokens line with
+  | [] => (s, "bad-op")
+  | cmd :: rest =>
+    let kv := kvs rest
+    let bad : St × String := (s, "bad-op")
+    match cmd with
+    | "new" =>
+      match lookup kv "arrays" >>= parseNat?, lookup kv "epochs" >>= parseNat?,
+            lookup kv "fuel" >>= parseNat?, lookup kv "flat" >>= parseBool? with
+      | some a, some e, some f, some fl =>
+        ({ arrays := a, epochs := e, fuel := f, flat := fl }, "ok")
+      | _, _, _, _ => bad
+    | "top" =>
+      match parseAttrs kv, lookup kv "kind" with
+      | some a, some "leaf" => ({ s with tops := s.tops ++ [{ a := a, parent := false }] }, "ok")
+      | some a, some "parent" => ({ s with tops := s.tops ++ [{ a := a, parent := true }] }, "ok")
+      | _, _ => bad
+    | "sub" =>
+      match parseAttrs kv with
+      | some a =>
+        match modifyLast (fun (t : BTop) =>
+            if t.parent then some { t with subs := t.subs ++ [⟨a, []⟩] } else none) s.tops with
+        | some tops => ({ s with tops := tops }, "ok")
+        | none => bad
+      | none => bad
+    | "eq" =>
+      match lookup kv "id" >>= parseNat?, lookup kv "dest" >>= parseNat?,
+            lookup kv "src" >>= parseList? parseNat?, lookup kv "hooks" >>= parseList? parseHook? with
+      | some id, some d, some src, some hooks =>
+        match modifyLast (addEq ⟨id, d, src, hooks⟩) s.tops with
+        | some tops => ({ s with tops := tops }, "ok")
+        | none => bad
+      | _, _, _, _ => bad
+    | "cond" =>
+      match lookup kv "g" >>= parseGId?, lookup kv "v" >>= parseList? parseBool?,
+            lookup kv "rest" >>= parseBool? with
+      | some g, some v, some r => ({ s with cond := (g, v, r) :: s.cond }, "ok")
+      | _, _, _ => bad
+    | "conv" =>
+      match lookup kv "e" >>= parseNat?, lookup kv "v" >>= parseList? parseBool?,
+            lookup kv "rest" >>= parseBool? with
+      | some e, some v, some r => ({ s with conv := (e, v, r) :: s.conv }, "ok")
+      | _, _, _ => bad
+    | "size" =>
+      match lookup kv "ep" >>= parseNat?, lookup kv "a" >>= parseNat?,
+            lookup kv "real" >>= parseNat?, lookup kv "all" >>= parseNat? with
+      | some ep, some a, some nr, some na => ({ s with size := ((ep, a), (nr, na)) :: s.size }, "ok")
+      | _, _, _, _ => bad
+    | "named" =>
+      match lookup kv "a" >>= parseNat?, lookup kv "k" >>= parseNat?, lookup kv "v" >>= parseNat? with
+      | some a, some k, some v => ({ s with named := ((a, k), v) :: s.named }, "ok")
+      | _, _, _ => bad
+    | "nb" =>
+      match lookup kv "ep" >>= parseNat?, lookup kv "d" >>= parseNat?, lookup kv "s" >>= parseNat?,
+            lookup kv "i" >>= parseNat?, lookup kv "l" >>= parseList? parseNat? with
+      | some ep, some d, some sr, some i, some l =>
+        ({ s with nb := ((ep, d, sr, i), l) :: s.nb }, "ok")
+      | _, _, _, _, _ => bad
+    | "run" =>
+      match rest with
+      | [w] => (s, run s w)
+      | _ => bad
+    | _ => bad
+
+end PysphVerif.Driver.C03
+
+def main : IO Unit := PysphVerif.Driver.loop PysphVerif.Driver.C03.step {}
